@@ -177,7 +177,7 @@ def monitor(chk, props, case, e, rec, orc):
 def run(tier, seed):
     chk = core.Check("C16", "exploration", tier, seed)
     rng = chk.rng("gen")
-    n_gram = {"quick": 40, "thorough": 400}[tier]
+    n_gram = {"quick": 70, "thorough": 400}[tier]
     subj, cases = pipeline.make_cases(chk, rng, n_gram, gen2.gen_recovery, TAGS)
     irng = chk.rng("inputs")
     execs = []
